@@ -157,6 +157,8 @@ pub(crate) fn rem(lhs: &Value, rhs: &Value) -> TeraResult<Value> {
             let val = match (left, right) {
                 (Number::Integer(a), Number::Integer(b)) => match a.checked_rem_euclid(b) {
                     Some(val) => Value::from(val),
+                    // `i128::MIN % -1`: only the intermediate division overflows, the remainder is 0
+                    None if b == -1 => Value::from(0i128),
                     None => {
                         return Err(Error::message(format!("Unable to perform {lhs} % {rhs}")));
                     }
@@ -226,11 +228,16 @@ pub(crate) fn pow(lhs: &Value, rhs: &Value) -> TeraResult<Value> {
 
             let val = match (left, right) {
                 (Number::Integer(a), Number::Integer(b)) => {
-                    let exp = u32::try_from(b).map_err(|_| {
-                        Error::message(format!(
-                            "Exponent {b} is out of range for integer ** (must fit in u32)"
-                        ))
-                    })?;
+                    let exp = match u32::try_from(b) {
+                        Ok(exp) => exp,
+                        // 0, 1 and -1 stay in range whatever the exponent: only its parity matters
+                        Err(_) if (-1..=1).contains(&a) => 2 + (b % 2) as u32,
+                        Err(_) => {
+                            return Err(Error::message(format!(
+                                "Exponent {b} is out of range for integer ** (must fit in u32)"
+                            )));
+                        }
+                    };
                     match a.checked_pow(exp) {
                         Some(val) => Value::from(val),
                         None => {
